@@ -35,6 +35,33 @@ def _rebuild(t, args):
     return t.decl()(*args)
 
 
+RULES = []   # proved rewrite lemmas: (vars, lhs, rhs), installed by solve.prove
+
+
+def set_rules(lemmas):
+    global RULES
+    RULES = []
+    for l in lemmas or []:
+        if getattr(l, 'rewrite', False) and l.proved and z3.is_eq(l.stmt):
+            RULES.append((l.vars, l.stmt.arg(0), l.stmt.arg(1)))
+
+
+def _match(pat, term, varids, binding):
+    if z3.is_const(pat) and pat.get_id() in varids:
+        b = binding.get(pat.get_id())
+        if b is None:
+            if pat.sort() != term.sort():
+                return False
+            binding[pat.get_id()] = term
+            return True
+        return b.eq(term)
+    if not z3.is_app(pat) or not z3.is_app(term):
+        return pat.eq(term)
+    if not pat.decl().eq(term.decl()) or pat.num_args() != term.num_args():
+        return False
+    return all(_match(a, b, varids, binding) for a, b in zip(pat.children(), term.children()))
+
+
 class Normalizer:
     def __init__(self, max_steps=20000):
         self.cache = {}
@@ -84,6 +111,15 @@ class Normalizer:
         k = t.decl().kind()
         if k in (z3.Z3_OP_DT_ACCESSOR, z3.Z3_OP_DT_IS, z3.Z3_OP_DT_RECOGNISER) and _is_ctor_headed(args[0]):
             return z3.simplify(t)
+        if k == z3.Z3_OP_UNINTERPRETED:
+            for vs, lhs, rhs in RULES:
+                if lhs.decl().eq(t.decl()):
+                    b = {}
+                    if _match(lhs, t, {v.get_id() for v in vs}, b) and len(b) == len(vs):
+                        self.steps += 1
+                        if self.steps > self.max_steps:
+                            raise RuntimeError('normalisation step limit')
+                        return self.norm(z3.substitute(rhs, *[(v, b[v.get_id()]) for v in vs]))
         return t
 
     def _simp_ite(self, body):
@@ -97,6 +133,17 @@ class Normalizer:
             else:
                 break
         return body
+
+
+_SHARED = None
+
+
+def shared_normalizer(reset=False):
+    """One normaliser (and its cache) per unit: path conditions are shared by the obligations of a path."""
+    global _SHARED
+    if _SHARED is None or reset:
+        _SHARED = Normalizer(max_steps=2000000)
+    return _SHARED
 
 
 def _recognizer_facts(assumptions):
@@ -136,8 +183,14 @@ def _stuck_apps(es):
 
 
 def prep(assumptions, goal, split_depth=0):
-    """-> (assumptions', goal') with spec functions unfolded."""
+    a, gs = prep_many(assumptions, [goal], split_depth=split_depth)
+    return a, gs[0]
+
+
+def prep_many(assumptions, goals, split_depth=0, normalizer=None):
+    """-> (assumptions', goals') with spec functions unfolded."""
     assumptions = list(assumptions)
+    goals = list(goals)
     # 1. recogniser facts make their subjects constructor-headed
     for _ in range(4):
         subs = _recognizer_facts(assumptions)
@@ -154,13 +207,13 @@ def prep(assumptions, goal, split_depth=0):
         eqs = [t == c for t, c in ssubs]
         assumptions = [a for a in assumptions if not any(a.eq(_rec_fact(t, c)) for t, c in ssubs)]
         assumptions = [z3.substitute(a, *ssubs) for a in assumptions] + eqs
-        goal = z3.substitute(goal, *ssubs)
-    n = Normalizer()
+        goals = [z3.substitute(g, *ssubs) for g in goals]
+    n = normalizer or Normalizer()
     out = [n.norm(a) for a in assumptions]
-    g = n.norm(goal)
+    gs = [n.norm(g) for g in goals]
     # 2. optional definitional case split for stuck applications
     extra = []
-    cur = out + [g]
+    cur = out + gs
     for _ in range(split_depth):
         new = []
         for f, app in _stuck_apps(cur):
@@ -170,7 +223,7 @@ def prep(assumptions, goal, split_depth=0):
             break
         extra.extend(new)
         cur = new
-    return out + extra, g
+    return out + extra, gs
 
 
 def _rec_fact(t, c):
